@@ -257,8 +257,13 @@ static void runSession(const Session& S, vh::Rng* rng, const std::vector<Op>* op
     const std::string nm = INTEG_NAMES[S.integ];
     // predicate keys: <family>.stepTo.<inputclass>.<pred>; the two CPodes variants share CPodesIntegratorRep::stepTo
     const std::string fam = isCPodes ? "CPodes" : directed ? "AbstractIntegratorRep" : nm;
+    // history class (CPodes only): a scheduled event exactly at the final time whose handler changed the state
+    bool schedAtFinalReinit = false;
+    for (size_t i = 0; i + 1 < log.size(); ++i)
+        if (isCPodes && S.hasFinal && log[i].op.kind == 's' && !log[i].exc && log[i].status == Integrator::ReachedScheduledEvent
+            && log[i].time == fin && log[i + 1].op.kind == 'r' && log[i + 1].op.lowered) schedAtFinalReinit = true;
     const std::string cls = (S.hasFinal && S.fin == S.t0) ? "finalAtStart" : S.allowInterp == 0 ? "noInterp"
-                            : S.retEvery ? "retEvery" : "plain";
+                            : S.retEvery ? "retEvery" : schedAtFinalReinit ? "schedAtFinalReinit" : "plain";
     const std::string kp = fam + ".stepTo." + ((directed && !isCPodes) ? "directed" : cls) + ".";
     double worstPending = 0, worstMono = 0, worstAdv = 0, worstExact = 0, worstWin = 0, worstEos = 0, worstRefuse = 0, worstRepWin = 0;
     int nEos = 0; bool eosSeen = false;
@@ -449,6 +454,15 @@ int main(int argc, char** argv) {
             const double r1 = rng.range(0.1, 0.6);
             for (auto& o : ops) { o.kind = 's'; o.replayed = true; o.sched = Inf; }
             ops[0].report = r1; ops[1].report = r1; ops[2].report = S.fin + rng.range(0.1, 1.0); ops[3].report = ops[2].report;
+            if ((i / 10) % 2 == 1) {
+                // CPodes (interpolation allowed): scheduled event exactly at the final time, handler changes the state
+                S.allowInterp = -1;
+                ops.assign(6, ops[0]);
+                const double beyond = S.fin + rng.range(0.1, 1.0);
+                for (auto& o : ops) { o.report = beyond; o.sched = Inf; }
+                ops[0].sched = S.fin; ops[1].sched = S.fin;
+                ops[2].kind = 'r'; ops[2].lowered = 1; ops[2].terminate = 0;
+            }
             runSession(S, nullptr, &ops, 0);
         }
         return 0;
